@@ -60,3 +60,21 @@ Theorem C18_faithful :
       SStruct (map (field_shape_reg r s n) fs).
 Proof. exact standalone_faithful. Qed.
 Print Assumptions C18_faithful.
+
+(** ... which is the body the item of a parameter-free entry has: its struct body, resp. each of
+    its variant bodies (with the recorded name and index), is the same [SStruct] field list *)
+Theorem C18_item_body :
+  forall r s teq m,
+    skeleton_consistent r s -> root_fresh s -> generate r s teq = Ok m ->
+    forall t flat ir n,
+      params_from_scale_info (t_params t) = [] ->
+      create_type_ir r s t flat = Ok (Some ir) ->
+      match t_def t with
+      | TDComposite fs => item_shape m s n ir [] = SStruct (map (field_shape_reg r s n) fs)
+      | TDVariant vs =>
+          item_shape m s n ir [] =
+          SEnum (map (fun v => (v_name v, v_index v, map (field_shape_reg r s n) (v_fields v))) vs)
+      | _ => True
+      end.
+Proof. exact param_free_item_body. Qed.
+Print Assumptions C18_item_body.
